@@ -36,6 +36,8 @@ gen_mhupdate.main([os.path.join(b, "src"), vlib.LEAN])
 gen_mhupdate.main_tail([os.path.join(b, "src"), vlib.LEAN])
 import gen_mhfin
 gen_mhfin.main([os.path.join(b, "src"), vlib.LEAN])
+import gen_mhinit
+gen_mhinit.main([os.path.join(b, "src"), vlib.LEAN])
 import gen_murmur
 gen_murmur.main([os.path.join(b, "src"), vlib.LEAN])
 
